@@ -102,6 +102,8 @@ POLYGONS = {
     'hexagon': _z([(0, 0), (1, 0), (2, 1), (2, 2), (1, 2), (0, 1)]),
     'heptagon': _z([(0, 0), (1, 0), (2, 1), (2, 2), (1, 3), (0, 3), (-1, 1)]),
     'octagon': _z([(1, 2), (2, 1), (2, -1), (1, -2), (-1, -2), (-2, -1), (-2, 1), (-1, 2)]),
+    # a genuine vertex where the boundary turns by only 0.06 rad (far outside the tolerance band, but "nearly straight")
+    'near-straight': _z([(0, 0), (4, 0), (8, F(1, 4)), (8, 4), (0, 4)]),
 }
 
 POLYHEDRA = {
@@ -227,10 +229,14 @@ def with_int_mode(fams, tier):
                     out.append(h)
             out.append(g)
         elif f.name.endswith('/P1'):
-            # oblique pose: default constructor forms in the quick tier, all forms in the thorough tier
-            out.append(f)
-            if tier != 'quick':
-                for form in ('#formB', '#formC'):
+            # oblique pose: quick tier through form D (Line(V,V), Plane(P,v,w), ...), thorough tier through all forms
+            if tier == 'quick':
+                g = copy.copy(f)
+                g.name = f.name + '#formD'
+                out.append(g)
+            else:
+                out.append(f)
+                for form in ('#formB', '#formC', '#formD'):
                     h = copy.copy(f)
                     h.name = f.name + form
                     out.append(h)
